@@ -7,6 +7,7 @@ import Chihaya.Driver.DHttpParse
 import Chihaya.Driver.DUdp
 import Chihaya.Driver.DHttpWrite
 import Chihaya.Driver.DStore
+import Chihaya.Driver.DTracker
 open Proto
 
 structure DState where
@@ -16,7 +17,7 @@ def statelessHandlers : List (Line → Option (Except String String)) :=
   [DBencode.handle, DVarInterval.handle', DConfig.handle, DApproval.handle, DHttpParse.handle, DUdp.handle, DHttpWrite.handle]
 
 def dispatch (st : DState) (l : Line) : DState × String :=
-  match DStore.handle st.store l with
+  match (DStore.handle st.store l).orElse (fun _ => DTracker.handle st.store l) with
   | some (s', r) =>
     ({ st with store := s' }, match r with | .ok s => s | .error e => "bad-op " ++ e)
   | none =>
